@@ -89,6 +89,16 @@ AllWrappers ==
      "fwdOnly",     \* bare <forwarded/> (XEP-0297) without carbon wrapper
      "wrongNs"}     \* <sent/> in a foreign namespace (urn:xmpp:carbons:1)
 
+\* Inner message kinds (what the wrapped message is and which markers it carries itself; the model does not
+\* depend on them, the harness builds the message and the monitor compares what is shown with exactly it):
+AllInners ==
+    {"chatIn", "chatOut", "spoof", "noBody", "error", "rich",
+     "private",     \* carries <private xmlns='urn:xmpp:carbons:2'/> itself (the other XEP-0280 marker)
+     "noCopy",      \* carries the XEP-0334 <no-copy/> and <no-store/> hints
+     "delay",       \* carries a XEP-0203 delay stamp
+     "headline", "groupchat",
+     "fwdInside"}   \* carries a XEP-0297 <forwarded/> of its own with a third message inside
+
 \* the stanza carries a carbon element the managers recognise ...
 IsCarbon(w) == w \in {"sent", "received", "sentBody", "recvBody", "privSent", "both", "nestedSent", "nestedRecv",
                       "emptyCarbon", "fwdWrongNs", "msgWrongNs"}
